@@ -285,7 +285,7 @@ func linkFrame(kind string, bo binary.ByteOrder, ip []byte) []byte {
 	return nil
 }
 
-func captureFile(format, link string, frames [][]byte) []byte {
+func captureFile(format, link string, frames [][]byte, decoy int) []byte {
 	b := &bytes.Buffer{}
 	var bo binary.ByteOrder = binary.LittleEndian
 	if format == "pcap_be" || format == "pcap_be_ns" || format == "pcapng_be" {
@@ -312,11 +312,24 @@ func captureFile(format, link string, frames [][]byte) []byte {
 		}
 	case "pcapng_le", "pcapng_be":
 		w(uint32(0x0a0d0d0a), uint32(28), uint32(0x1a2b3c4d), uint16(1), uint16(0), int64(-1), uint32(28))
+		// decoy 1/2: a second interface of another link type before/after the one the packets belong to
+		other := uint16(1)
+		if lt == 1 {
+			other = 113
+		}
+		ifid := uint32(0)
+		if decoy == 1 {
+			w(uint32(1), uint32(20), other, uint16(0), uint32(262144), uint32(20))
+			ifid = 1
+		}
 		w(uint32(1), uint32(20), uint16(lt), uint16(0), uint32(262144), uint32(20))
+		if decoy == 2 {
+			w(uint32(1), uint32(20), other, uint16(0), uint32(262144), uint32(20))
+		}
 		for i, f := range frames {
 			pad := (4 - len(f)%4) % 4
 			tl := uint32(32 + len(f) + pad)
-			w(uint32(6), tl, uint32(0), uint32(0x0005f000), uint32(i*1000), uint32(len(f)), uint32(len(f)))
+			w(uint32(6), tl, ifid, uint32(0x0005f000), uint32(i*1000), uint32(len(f)), uint32(len(f)))
 			b.Write(f)
 			b.Write(make([]byte, pad))
 			w(tl)
@@ -624,7 +637,8 @@ func observe(h *History, format, link string, wseed int64, big bool) (Obs, []int
 	if format == "pcap_be" || format == "pcap_be_ns" || format == "pcapng_be" {
 		bo = binary.BigEndian
 	}
-	file := captureFile(format, link, w.frames(h, rng, link, bo))
+	frames := w.frames(h, rng, link, bo)
+	file := captureFile(format, link, frames, rng.Intn(3))
 	conns, reasm, errs := runFq(format, file)
 	obs := Obs{Conns: []ObsConn{}, Reasm: []int{}}
 	for _, rc := range conns {
